@@ -38,7 +38,7 @@ pub enum Act {
     Crash { node: u8 },
     /// Byzantine leader only: block b (parent = tip) to the nodes in the mask, a twin b' (other
     /// parent) to the others, Byzantine notar votes for each to the respective group
-    Equivocate { split_mask: u16, parent2: u16, flush: u8 },
+    Equivocate { split_mask: u16, parent2: u16, flush: u8, twin_late: bool },
     /// deliver every in-flight message of one class (0..=4 vote kinds, 5 = certificates) for the
     /// slot cursor+dslot to the nodes in the mask
     DeliverWhere { what: u8, dslot: i8, to_mask: u16 },
@@ -66,7 +66,7 @@ impl Property for C01 {
         "C01"
     }
     fn cases(&self, tier: Tier) -> u32 {
-        tier.pick(1_200, 40_000)
+        tier.pick(2_400, 60_000)
     }
     fn rule(&self) -> String {
         "cases: 5..=10 validators with equal, small-integer or threshold-exact stakes (40/60 and 20/80 splits reachable), a Byzantine set of 0..=2 validators holding strictly less than \
@@ -111,11 +111,11 @@ impl Property for C01 {
             3 => prop_oneof![0u16..300, 700u16..1300].prop_map(|ms| Act::Wait { ms }),
             4 => Just(Act::Next),
             1 => any::<u8>().prop_map(|node| Act::Crash { node }),
-            4 => (any::<u16>(), any::<u16>(), 0u8..3).prop_map(|(split_mask, parent2, flush)| Act::Equivocate { split_mask, parent2, flush }),
+            5 => (prop_oneof![any::<u16>(), mask.clone()], any::<u16>(), 0u8..4, any::<bool>()).prop_map(|(split_mask, parent2, flush, twin_late)| Act::Equivocate { split_mask, parent2, flush, twin_late }),
             8 => (0u8..6, prop_oneof![4 => Just(0i8), 2 => Just(-1i8), 1 => Just(-2i8)], any::<u16>()).prop_map(|(what, dslot, to_mask)| Act::DeliverWhere { what, dslot, to_mask }),
             6 => (any::<u16>(), 0u16..720).prop_map(|(got_block, order)| Act::SplitRound { got_block, order }),
         ];
-        (stakes, prop::collection::vec(prop_oneof![3 => 0u8..3, 1 => any::<u8>()], 3), prop_oneof![1 => Just(0u8), 3 => Just(1u8), 2 => Just(2u8)], any::<u64>(), prop::collection::vec(act, 1..70))
+        (stakes, (prop_oneof![3 => Just(0u8), 1 => 0u8..3], prop_oneof![2 => Just(1u8), 1 => any::<u8>()], any::<u8>()).prop_map(|(a, b, c)| vec![a, b, c]), prop_oneof![1 => Just(0u8), 3 => Just(1u8), 2 => Just(2u8)], any::<u64>(), prop::collection::vec(act, 1..70))
             .prop_map(|(stakes, byz_order, byz_count, seed, acts)| Case { stakes, byz_order, byz_count, seed, acts })
             .boxed()
     }
@@ -515,7 +515,7 @@ async fn run(case: &Case) -> Outcome {
                     }
                 }
             }
-            Act::Equivocate { split_mask, parent2, flush } => {
+            Act::Equivocate { split_mask, parent2, flush, twin_late } => {
                 let slot = cursor;
                 let leader = w.leader(slot);
                 if !w.byz[leader] {
@@ -563,6 +563,19 @@ async fn run(case: &Case) -> Outcome {
                             }
                         }
                     }
+                }
+                if *twin_late {
+                    // later every node also obtains the other version (repair path)
+                    for to in 0..n {
+                        let b = if split_mask >> to & 1 == 1 { &b2 } else { &b1 };
+                        if self_live(&w, to) && w.announced[to].insert((b.slot, b.tag)) {
+                            if let Call::Panicked(p) = w.nodes[to].as_mut().unwrap().block(bid(b.slot, b.tag), bid(b.parent.0, b.parent.1), false).await {
+                                w.panic(&mut out, &p, to);
+                                return finish(out, w);
+                            }
+                        }
+                    }
+                    out.label("twin-delivered-late");
                 }
             }
             Act::SplitRound { got_block, order } => {
@@ -730,6 +743,10 @@ async fn run(case: &Case) -> Outcome {
         }
     }
     finish(out, w)
+}
+
+fn self_live(w: &World, i: usize) -> bool {
+    !w.byz[i] && w.nodes[i].as_ref().is_some_and(|n| !n.crashed)
 }
 
 fn finish(mut out: Outcome, w: World) -> Outcome {
